@@ -5,7 +5,7 @@
 #         every macro / member function / array form)  vs  GFqDom<int32_t|int64_t> of /repo's current headers
 # search: python oracle = F_p[X]/(f) on coefficient lists, its own tables, brute-force irreducibility and
 #         primitivity; Extension<>, GFqExt, GFqKronecker, GF2 against the same oracle
-import json, os, re, sys
+import json, os, re, sys, time
 import vf
 
 AREA = "C05"
@@ -525,7 +525,12 @@ def main(tier, replay=None):
         "harness/c05_gfq.C, harness/c05_ext.C, checks/C05.py (generators, python F_p[X]/(f) oracle, brute-force irreducibility/primitivity)",
         "g++ / x86-64 for the implementation side",
     ]
-    # 1. proofs
+    # 1. proofs (coq/C05 reuses the compiled objects of coq/C09: built here only when they are missing)
+    need = ["Model.vo", "ProofsAlg.vo", "ProofsDiv.vo", "ProofsIrr.vo"]
+    if not all(os.path.exists(os.path.join(vf.coq_dir("C09"), x)) for x in need):
+        ok9, out9 = vf.coq_make("C09", targets=need, jobs=4)
+        if not ok9:
+            chk.broke("coq/C09 objects needed by coq/C05 (irreducible_b, brute_order and their proofs) do not build", out9[-2000:])
     res = vf.coq_check_props(AREA)
     chk.proof_result(res, AREA)
     # 2. executables
@@ -586,7 +591,9 @@ def main(tier, replay=None):
     for fc in fields:
         impl_in.append(fc.field_line())
         impl_in += [l[1] for l in fc.lines]
+    vf.log("[C05] proofs+builds+generation: %.1fs since start" % (time.time() - chk.t0))
     rc, iout, ierr = vf.run_lines(himpl, "\n".join(impl_in) + "\n", timeout=(300 if tier == "quick" else 1500))
+    vf.log("[C05] implementation harness: %.1fs since start" % (time.time() - chk.t0))
     if rc != 0 or len(iout) != len(impl_in):
         # the library crashed or hung on the line after the last answered one: that line is the failing input
         n = len(iout)
@@ -630,11 +637,13 @@ def main(tier, replay=None):
     box = {}
 
     def run_model():
+        t0 = time.time()
         box["m"] = vf.run_lines(drv, "\n".join(model_in) + "\n", timeout=1500)
+        vf.log("[C05] extracted model: %.1fs" % (time.time() - t0))
     threads = []
     if drv:
         threads.append(threading.Thread(target=run_model))
-    threads.append(threading.Thread(target=ext_part, args=(chk, vf.Rng(chk.seed + 77), tier, dist_ext)))
+    threads.append(threading.Thread(target=ext_part, args=(chk, vf.Rng(chk.seed + 77), tier, dist_ext, drv)))
     threads.append(threading.Thread(target=vec_part, args=(chk, vf.Rng(chk.seed + 78), himpl, dist_ext)))
     for th in threads:
         th.start()
@@ -643,8 +652,10 @@ def main(tier, replay=None):
             P0 = PF(fc.p, fc.k, fc.irred)
             fc.pre = (P0, (fc.k == 1 or P0.irreducible()) and P0.order_is_full(P0.elt(fc.g)))
             fc.tabs = P0.tables(P0.elt(fc.g)) if fc.pre[1] else None
+    vf.log("[C05] oracle tables: %.1fs since start" % (time.time() - chk.t0))
     for th in threads:
         th.join()
+    vf.log("[C05] background parts joined: %.1fs since start" % (time.time() - chk.t0))
     mout = None
     if drv:
         rc, mout, merr = box["m"]
@@ -944,7 +955,11 @@ def build_harness_retry(src, **kw):
     return h, l
 
 
-def ext_part(chk, rng, tier, dist):
+XCODE = {"add": 0, "addin": 0, "sub": 1, "subin": 1, "mul": 2, "mulin": 2, "neg": 3, "negin": 3, "axpy": 4, "axpyin": 5,
+         "maxpy": 6, "maxpyin": 7, "axmy": 8, "axmyin": 9}
+
+
+def ext_part(chk, rng, tier, dist, drv=None):
     """Extension<GFqDom<int64_t>|Modular<int64_t>>, GFqExtFast/GFqExt<int32_t>, GF2 against the F_p[X]/(f) oracle.
     (GFqKronecker cannot be compiled in this tree: see harness/c05_ext.C.)"""
     h, l = build_harness_retry("c05_ext.C", deps=("c05_alias.h",))
@@ -1080,6 +1095,7 @@ def ext_part(chk, rng, tier, dist):
     P = None
     ctx = None
     l2p = None
+    xq = []          # (field, impl line, impl answer, model line) of the Extension operations that ExtModel.v models
     for (line, kind, meta), got in zip(L, out):
         dist["ext:" + kind] = dist.get("ext:" + kind, 0) + 1
         if kind == "gf2desc":
@@ -1169,6 +1185,8 @@ def ext_part(chk, rng, tier, dist):
                 e = P.num(ee)
             if got != str(e):
                 chk.fail_input("Extension::" + v, "scalar", case, e, got, "result differs from polynomial arithmetic modulo the stored irreducible")
+            elif v in XCODE:
+                xq.append((ctx, line, got, "xop %d %d %d %d %d %d %d" % (P.p, P.k, case["irred"], XCODE[v], a[0], a[1], a[2])))
         elif kind == "eopa":
             if P is None:
                 continue
@@ -1179,6 +1197,8 @@ def ext_part(chk, rng, tier, dist):
             if ee is not None and got != str(P.num(ee)):
                 chk.fail_input("Extension::" + v, "alias " + pat, {"field": ctx, "line": line}, P.num(ee), got,
                                "the call with destination/operands aliased as in the pattern differs from polynomial arithmetic modulo the stored irreducible")
+            elif ee is not None and v in XCODE:
+                xq.append((ctx, line, got, "xop %d %d %d %d %d %d %d" % (P.p, P.k, P.num(P.f[:P.k]) + P.f[P.k] * P.p ** P.k, XCODE[v], ea, eb, ec)))
         elif kind == "gext":
             cls, p, k, bits, maxn, modout = meta
             ctx = "GFqExt%s<int32_t> GF(%d^%d)" % ("Fast" if cls == "fast" else "", p, k)
@@ -1248,3 +1268,18 @@ def ext_part(chk, rng, tier, dist):
                 chk.fail_input("GFqExtFast::init(double)" if gmeta[0] == "fast" else "GFqExt::init(double)",
                                "d=0" if (kind == "ginit" and not any(vs)) else kind, {"field": ctx, "line": line, "coefficients": vs},
                                P.num(e), got, "decoding of the Kronecker-packed double is not sum (v_i mod p) X^i mod f")
+    # correspondence: the extracted Extension model (ExtModel.v, theorem C05_extension_ops_are_quotient_ring_operations)
+    if drv and xq:
+        step = max(1, len(xq) // (12000 if tier == "quick" else 60000))
+        xs = xq[::step]
+        rc, mo, merr = vf.run_lines(drv, "\n".join(x[3] for x in xs) + "\n", timeout=600)
+        if rc != 0 or len(mo) != len(xs):
+            chk.broke("model driver failed on the Extension operations (rc=%s, %d/%d lines)" % (rc, len(mo), len(xs)), merr[-1000:])
+        else:
+            dist["ext:model-correspondence"] = len(xs)
+            nb = 0
+            for (ctx, line, got, ml), mg in zip(xs, mo):
+                if mg.strip() != got.strip() and nb < 10:
+                    nb += 1
+                    chk.broke("correspondence Extension model/implementation differs on %s '%s': model=%s impl=%s" % (ctx, line, mg, got))
+
